@@ -15,24 +15,29 @@ mod spec;
 use std::collections::{BTreeMap, BTreeSet};
 use std::path::{Path, PathBuf};
 use std::sync::atomic::{AtomicBool, AtomicU64, Ordering};
-use std::time::Instant;
+use std::time::{Duration, Instant};
 
 use serde::{Deserialize, Serialize};
 
 use crate::batch::{CheckArgs, load_known_findings, write_json};
 use crate::sim::rng::{Rng, mix};
-use exec::{Finding, Runner};
+use exec::{Finding, ProgressRef, Runner};
 use spec::*;
 
 /// Property ids this engine decides
 pub const PROPERTIES: &[&str] = &["C16", "C04"];
 
 const ENGINE_TAG: u64 = 4;
-const QUICK_RUNS: u64 = 24_000;
+const QUICK_RUNS: u64 = 20_000;
 const THOROUGH_FACTOR: u64 = 25;
 const SHRINK_TRIES: u64 = 4_000;
-/// a single run needs milliseconds; this is the alarm for an endless loop in the allocator
-const RUN_TIMEOUT_S: u64 = 120;
+/// A run needs milliseconds. A run that does not come back within this time is an endless loop
+/// inside the allocator (the claimers loop `while units > 0 || fractions > 0`): finding `hang`.
+const RUN_TIMEOUT: Duration = Duration::from_secs(30);
+const SHRINK_TIMEOUT: Duration = Duration::from_secs(5);
+/// a hung run keeps its thread spinning until the process exits: stop the batch after a few
+const MAX_HANGS_IN_BATCH: u64 = 3;
+const MAX_HANGS_IN_SHRINK: u64 = 8;
 
 fn property_tag(p: &str) -> u64 {
     p.bytes().fold(0u64, |a, b| a * 131 + b as u64)
@@ -55,6 +60,8 @@ pub struct RunResult {
     pub decisions_nontrivial: BTreeSet<u64>,
     pub history_hash: u64,
     pub trace: Vec<String>,
+    /// the allocator did not return from the last operation
+    pub hung: bool,
 }
 
 fn finish(desc: Desc, ops: Vec<Op>, runner: Result<Runner<'_>, Finding>) -> RunResult {
@@ -68,6 +75,7 @@ fn finish(desc: Desc, ops: Vec<Op>, runner: Result<Runner<'_>, Finding>) -> RunR
             history_hash: r.history_hash,
             trace: r.trace,
             desc,
+            hung: false,
         },
         Err(f) => RunResult {
             desc,
@@ -78,19 +86,24 @@ fn finish(desc: Desc, ops: Vec<Op>, runner: Result<Runner<'_>, Finding>) -> RunR
             decisions_nontrivial: BTreeSet::new(),
             history_hash: 0,
             trace: Vec::new(),
+            hung: false,
         },
     }
 }
 
 /// Seeded run: descriptor, history plan and every operation are drawn from one PRNG
-pub fn run_seeded(seed: u64, keep_trace: bool) -> RunResult {
+pub fn run_seeded(seed: u64, keep_trace: bool, progress: Option<ProgressRef>) -> RunResult {
     let mut rng = Rng::new(seed);
     let desc = gen_desc(&mut rng);
     let plan = gen_history_plan(&mut rng);
     let mut ops: Vec<Op> = Vec::new();
+    if let Some(p) = &progress {
+        p.lock().unwrap().desc = Some(desc.clone());
+    }
     let runner = match Runner::new(&desc, false) {
         Ok(mut runner) => {
             runner.keep_trace = keep_trace;
+            runner.progress = progress;
             let mut next_id = 1u32;
             for _ in 0..plan.n_ops {
                 let live = runner.live_ids();
@@ -130,10 +143,14 @@ pub fn run_seeded(seed: u64, keep_trace: bool) -> RunResult {
 }
 
 /// Executes an explicit operation list (no PRNG)
-pub fn run_ops(desc: &Desc, ops: &[Op], verbose: bool, keep_trace: bool) -> RunResult {
+pub fn run_ops(desc: &Desc, ops: &[Op], verbose: bool, keep_trace: bool, progress: Option<ProgressRef>) -> RunResult {
+    if let Some(p) = &progress {
+        p.lock().unwrap().desc = Some(desc.clone());
+    }
     let runner = match Runner::new(desc, verbose) {
         Ok(mut runner) => {
             runner.keep_trace = keep_trace;
+            runner.progress = progress;
             if verbose {
                 println!("descriptor: {}", desc.describe());
             }
@@ -150,6 +167,77 @@ pub fn run_ops(desc: &Desc, ops: &[Op], verbose: bool, keep_trace: bool) -> RunR
     finish(desc.clone(), ops.to_vec(), runner)
 }
 
+pub enum Job {
+    Seeded { seed: u64, keep_trace: bool },
+    Ops { desc: Desc, ops: Vec<Op>, verbose: bool },
+}
+
+/// Executes a run on a thread of its own and waits at most `timeout` for it. If the allocator
+/// never returns, the result is what the run had done so far plus the finding `hang@<call>`;
+/// the thread is abandoned (it cannot be stopped) and spins until the process exits.
+pub fn run_guarded(job: Job, timeout: Duration) -> RunResult {
+    let progress: ProgressRef = Default::default();
+    let (tx, rx) = std::sync::mpsc::channel();
+    let shared = progress.clone();
+    let spawned = std::thread::Builder::new().name("alloc-run".into()).spawn(move || {
+        tako::verif::set_sim_clock(true);
+        let r = match job {
+            Job::Seeded { seed, keep_trace } => run_seeded(seed, keep_trace, Some(shared)),
+            Job::Ops { desc, ops, verbose } => run_ops(&desc, &ops, verbose, false, Some(shared)),
+        };
+        let _ = tx.send(r);
+    });
+    let harness = |message: String, p: &exec::Progress| RunResult {
+        desc: p.desc.clone().unwrap_or(Desc { resources: Vec::new(), coupling: Vec::new() }),
+        ops: p.ops.clone(),
+        findings: vec![Finding { property: "HARNESS", oracle: "run-thread", key: String::new(), message, op: 0 }],
+        counters: BTreeMap::new(),
+        state_shapes: BTreeSet::new(),
+        decisions_nontrivial: BTreeSet::new(),
+        history_hash: 0,
+        trace: Vec::new(),
+        hung: false,
+    };
+    if let Err(e) = spawned {
+        return harness(format!("cannot start a thread: {e}"), &progress.lock().unwrap());
+    }
+    match rx.recv_timeout(timeout) {
+        Ok(r) => r,
+        Err(std::sync::mpsc::RecvTimeoutError::Disconnected) => {
+            harness("the run thread died (panic in harness code)".into(), &progress.lock().unwrap())
+        }
+        Err(std::sync::mpsc::RecvTimeoutError::Timeout) => {
+            let p = progress.lock().unwrap();
+            let mut findings = p.findings.clone();
+            let op = p.ops.len().saturating_sub(1);
+            findings.push(Finding {
+                property: "PANIC",
+                oracle: "hang",
+                key: p.phase.to_string(),
+                message: format!(
+                    "{} did not return within {} s in operation {}: {}",
+                    p.phase,
+                    timeout.as_secs(),
+                    op,
+                    p.ops.last().map(describe_op).unwrap_or_default()
+                ),
+                op,
+            });
+            RunResult {
+                desc: p.desc.clone().unwrap_or(Desc { resources: Vec::new(), coupling: Vec::new() }),
+                ops: p.ops.clone(),
+                findings,
+                counters: BTreeMap::new(),
+                state_shapes: BTreeSet::new(),
+                decisions_nontrivial: BTreeSet::new(),
+                history_hash: 0,
+                trace: Vec::new(),
+                hung: true,
+            }
+        }
+    }
+}
+
 /* ---------------------------------------------------------------------------------------- */
 /* Batch                                                                                    */
 /* ---------------------------------------------------------------------------------------- */
@@ -162,9 +250,48 @@ struct RunSummary {
     nontrivial: bool,
     /// (property, signature, message, op), first of each signature
     findings: Vec<(String, String, String, usize)>,
+    /// descriptor and operations of a run that hung (it must not be re-executed from its seed)
+    hung_case: Option<(Desc, Vec<Op>)>,
+}
+
+/// Order-independent totals of the runs of one thread (sums and sets), so that a thorough
+/// batch does not keep per-run maps in memory
+#[derive(Default)]
+struct Totals {
     counters: BTreeMap<String, u64>,
     state_shapes: Vec<u64>,
     decisions_nontrivial: Vec<u64>,
+}
+
+fn compact(v: &mut Vec<u64>) {
+    v.sort_unstable();
+    v.dedup();
+}
+
+impl Totals {
+    fn add(&mut self, r: &RunResult) {
+        for (k, v) in &r.counters {
+            *self.counters.entry(k.clone()).or_default() += v;
+        }
+        self.state_shapes.extend(r.state_shapes.iter());
+        self.decisions_nontrivial.extend(r.decisions_nontrivial.iter());
+        if self.state_shapes.len() > 1 << 21 {
+            compact(&mut self.state_shapes);
+        }
+        if self.decisions_nontrivial.len() > 1 << 21 {
+            compact(&mut self.decisions_nontrivial);
+        }
+    }
+
+    fn merge(&mut self, other: Totals) {
+        for (k, v) in other.counters {
+            *self.counters.entry(k).or_default() += v;
+        }
+        self.state_shapes.extend(other.state_shapes);
+        self.decisions_nontrivial.extend(other.decisions_nontrivial);
+        compact(&mut self.state_shapes);
+        compact(&mut self.decisions_nontrivial);
+    }
 }
 
 fn summarize(index: u64, seed: u64, r: RunResult) -> RunSummary {
@@ -186,9 +313,7 @@ fn summarize(index: u64, seed: u64, r: RunResult) -> RunSummary {
         n_ops: r.ops.len(),
         nontrivial,
         findings,
-        counters: r.counters,
-        state_shapes: r.state_shapes.into_iter().collect(),
-        decisions_nontrivial: r.decisions_nontrivial.into_iter().collect(),
+        hung_case: if r.hung { Some((r.desc, r.ops)) } else { None },
     }
 }
 
@@ -213,8 +338,13 @@ fn effective_property<'a>(finding_property: &'a str, checked: &'a str) -> &'a st
     if finding_property == "PANIC" { checked } else { finding_property }
 }
 
-fn fires(desc: &Desc, ops: &[Op], checked: &str, target_sig: &str) -> Option<(String, usize)> {
-    let r = run_ops(desc, ops, false, false);
+/// Does the signature fire for this case? (message, operation index). Counts hangs: every one
+/// leaves a spinning thread behind.
+fn fires(desc: &Desc, ops: &[Op], checked: &str, target_sig: &str, timeout: Duration, hangs: &mut u64) -> Option<(String, usize)> {
+    let r = run_guarded(Job::Ops { desc: desc.clone(), ops: ops.to_vec(), verbose: false }, timeout);
+    if r.hung {
+        *hangs += 1;
+    }
     r.findings
         .iter()
         .find(|f| effective_property(f.property, checked) == checked && f.signature() == target_sig)
@@ -230,24 +360,40 @@ fn sig_tag(s: &str) -> String {
 }
 
 fn report_violation(args: &CheckArgs, property: &str, first: &RunSummary, sig: &str) -> Result<(PathBuf, String), String> {
-    let r = run_seeded(first.seed, false);
-    if r.history_hash != first.history_hash {
-        return Err("re-execution of the seed produced a different history".into());
+    let mut hangs = 0u64;
+    let (base_desc, mut base_ops) = match &first.hung_case {
+        Some((d, o)) => (d.clone(), o.clone()),
+        None => {
+            let r = run_guarded(Job::Seeded { seed: first.seed, keep_trace: false }, RUN_TIMEOUT);
+            if r.history_hash != first.history_hash {
+                return Err("re-execution of the seed produced a different history".into());
+            }
+            (r.desc, r.ops)
+        }
+    };
+    let original_ops = base_ops.len();
+    // a finding that fired before the hanging operation of a hung run: the prefix suffices
+    if first.hung_case.is_some()
+        && !sig.starts_with("hang@")
+        && let Some((_, _, _, op)) = first.findings.iter().find(|f| f.1 == sig)
+    {
+        base_ops.truncate(*op + 1);
     }
-    let Some((_, first_op)) = fires(&r.desc, &r.ops, property, sig) else {
+    let Some((_, first_op)) = fires(&base_desc, &base_ops, property, sig, RUN_TIMEOUT, &mut hangs) else {
         return Err("the recorded operation list does not reproduce the violation".into());
     };
-    let (desc, ops, stats) = shrink::minimise(&r.desc, &r.ops, first_op, SHRINK_TRIES, &mut |d, o| {
-        fires(d, o, property, sig).is_some()
+    let (desc, ops, stats) = shrink::minimise(&base_desc, &base_ops, first_op, SHRINK_TRIES, &mut |d, o| {
+        hangs < MAX_HANGS_IN_SHRINK && fires(d, o, property, sig, SHRINK_TIMEOUT, &mut hangs).is_some()
     });
-    let (desc, ops, message, minimised) = match fires(&desc, &ops, property, sig) {
+    let (desc, ops, message, minimised) = match fires(&desc, &ops, property, sig, RUN_TIMEOUT, &mut hangs) {
         Some((m, _)) => {
-            let minimised = stats.ops_to < stats.ops_from || desc != r.desc;
+            let minimised = stats.ops_to < stats.ops_from || desc != base_desc;
             (desc, ops, m, minimised)
         }
         None => {
-            let (m, _) = fires(&r.desc, &r.ops, property, sig).unwrap();
-            (r.desc.clone(), r.ops.clone(), m, false)
+            let (m, _) = fires(&base_desc, &base_ops, property, sig, RUN_TIMEOUT, &mut hangs)
+                .ok_or("the violation is not reproducible")?;
+            (base_desc.clone(), base_ops.clone(), m, false)
         }
     };
     let file = ReplayFile {
@@ -261,7 +407,7 @@ fn report_violation(args: &CheckArgs, property: &str, first: &RunSummary, sig: &
         ops_text: ops.iter().map(describe_op).collect(),
         ops,
         minimised,
-        original_ops: r.ops.len(),
+        original_ops,
     };
     let dir = args.verif_dir.join("replays");
     std::fs::create_dir_all(&dir).map_err(|e| e.to_string())?;
@@ -285,7 +431,7 @@ fn report_violation(args: &CheckArgs, property: &str, first: &RunSummary, sig: &
 }
 
 fn sample_case(seed: u64) -> serde_json::Value {
-    let r = run_seeded(seed, true);
+    let r = run_guarded(Job::Seeded { seed, keep_trace: true }, RUN_TIMEOUT);
     serde_json::json!({
         "seed": seed,
         "descriptor": r.desc.describe(),
@@ -309,68 +455,61 @@ pub fn check(args: &CheckArgs) -> i32 {
         .unwrap_or(if thorough { QUICK_RUNS * THOROUGH_FACTOR } else { QUICK_RUNS });
     let jobs = args.jobs.max(1).min(total.max(1)) as usize;
 
-    // ---- runs, spread over threads; results are merged in run-index order
+    // ---- runs, spread over threads; results are merged in run-index order. Every run executes
+    // on a thread of its own so that an endless loop in the allocator becomes a finding.
     let next = AtomicU64::new(0);
-    let done = AtomicBool::new(false);
-    // per thread: (run index + 1, start in ms since `start`)
-    let current: Vec<(AtomicU64, AtomicU64)> =
-        (0..jobs).map(|_| (AtomicU64::new(0), AtomicU64::new(0))).collect();
+    let hangs = AtomicU64::new(0);
+    let stop = AtomicBool::new(false);
     let mut runs: Vec<RunSummary> = Vec::with_capacity(total as usize);
+    let mut totals = Totals::default();
     std::thread::scope(|scope| {
         let mut handles = Vec::new();
-        for t in 0..jobs {
-            let next = &next;
-            let current = &current;
+        for _ in 0..jobs {
+            let (next, hangs, stop) = (&next, &hangs, &stop);
             let seed0 = args.seed;
             handles.push(scope.spawn(move || {
-                tako::verif::set_sim_clock(true);
                 let mut out = Vec::new();
+                let mut totals = Totals::default();
                 loop {
+                    if stop.load(Ordering::Relaxed) {
+                        break;
+                    }
                     let i = next.fetch_add(1, Ordering::Relaxed);
                     if i >= total {
                         break;
                     }
-                    current[t].1.store(start.elapsed().as_millis() as u64, Ordering::Relaxed);
-                    current[t].0.store(i + 1, Ordering::Relaxed);
                     let seed = run_seed_for(seed0, property, i);
-                    out.push(summarize(i, seed, run_seeded(seed, false)));
-                    current[t].0.store(0, Ordering::Relaxed);
+                    let r = run_guarded(Job::Seeded { seed, keep_trace: false }, RUN_TIMEOUT);
+                    if r.hung && hangs.fetch_add(1, Ordering::Relaxed) + 1 >= MAX_HANGS_IN_BATCH {
+                        stop.store(true, Ordering::Relaxed);
+                    }
+                    totals.add(&r);
+                    out.push(summarize(i, seed, r));
                 }
-                out
+                (out, totals)
             }));
         }
-        // watchdog: an endless loop inside the allocator would otherwise hang the check
-        let watchdog = scope.spawn(|| {
-            while !done.load(Ordering::Relaxed) {
-                std::thread::sleep(std::time::Duration::from_millis(200));
-                let now = start.elapsed().as_millis() as u64;
-                for c in &current {
-                    let i = c.0.load(Ordering::Relaxed);
-                    let since = c.1.load(Ordering::Relaxed);
-                    if i > 0 && now.saturating_sub(since) > RUN_TIMEOUT_S * 1000 {
-                        eprintln!(
-                            "HARNESS-ERROR: run {} (seed {}) did not finish within {RUN_TIMEOUT_S} s: endless loop in the allocator? (re-run: hqsim check --property {property} --runs {} --jobs 1)",
-                            i - 1,
-                            run_seed_for(args.seed, property, i - 1),
-                            i
-                        );
-                        std::process::exit(2);
-                    }
-                }
-            }
-        });
         for h in handles {
             match h.join() {
-                Ok(v) => runs.extend(v),
+                Ok((v, t)) => {
+                    runs.extend(v);
+                    totals.merge(t);
+                }
                 Err(_) => {
                     eprintln!("HARNESS-ERROR: a worker thread of the alloc engine panicked");
                     std::process::exit(2);
                 }
             }
         }
-        done.store(true, Ordering::Relaxed);
-        let _ = watchdog.join();
     });
+    let hung_runs = hangs.load(Ordering::Relaxed);
+    let stopped_early = stop.load(Ordering::Relaxed);
+    if hung_runs > 0 {
+        println!(
+            "{property}: {hung_runs} runs did not return from the allocator; {} of {total} runs were executed",
+            runs.len()
+        );
+    }
     runs.sort_by_key(|r| r.index);
     let run_wall = start.elapsed().as_secs_f64();
 
@@ -433,16 +572,9 @@ pub fn check(args: &CheckArgs) -> i32 {
     }
 
     // ---- evidence
-    let mut counters: BTreeMap<String, u64> = BTreeMap::new();
-    let mut shapes: BTreeSet<u64> = BTreeSet::new();
-    let mut decisions: BTreeSet<u64> = BTreeSet::new();
-    for r in &runs {
-        for (k, v) in &r.counters {
-            *counters.entry(k.clone()).or_default() += v;
-        }
-        shapes.extend(r.state_shapes.iter());
-        decisions.extend(r.decisions_nontrivial.iter());
-    }
+    let counters = &totals.counters;
+    let shapes = &totals.state_shapes;
+    let decisions = &totals.decisions_nontrivial;
     let get = |k: &str| counters.get(k).copied().unwrap_or(0);
     let nontrivial: Vec<&RunSummary> = runs.iter().filter(|r| r.nontrivial).collect();
     let distinct_nontrivial: BTreeSet<u64> = nontrivial.iter().map(|r| r.history_hash).collect();
@@ -495,6 +627,8 @@ pub fn check(args: &CheckArgs) -> i32 {
             "distinct_nontrivial_decisions_measure": "distinct (descriptor, free-state shape, request) decided while at least one allocation was live",
             "per_policy_entries": per_policy,
             "faults_injected": {},
+            "runs_hung_in_the_allocator": hung_runs,
+            "batch_stopped_early_because_of_hangs": stopped_early,
             "probes": probes,
             "distinct_states": shapes.len(),
             "distinct_states_measure": "distinct free-state shapes seen before a decision: per resource and group (number of completely free indices, multiset of free fractions of partially used indices) or the free amount of a sum resource",
@@ -553,7 +687,7 @@ pub fn check(args: &CheckArgs) -> i32 {
     exit
 }
 
-const RULE_C16: &str = "one run = seeded worker descriptor (cpus + 0-2 further resources; list / range / groups of 1-4 groups x 1-4 indices, uneven sizes, 1 run in 8 with up to 8 indices per group; sum resources with fractional sizes; optional coupling weights between groups, light 32-256 or heavy >1024) + seeded history of 5-40 operations grant(request) / release(live allocation) / probe(request) (+ optional final drain), requests of 1-3 entries over every policy (compact, tight, scatter, compact!, tight!, all), amounts on the grid {0.25,0.5,0.75,1,1.25,..} plus odd fractions (0.0001, 0.3333, 0.9999) up to slightly more than the resource. At every probe/grant the answer of the real allocator is compared with a brute-force reference over group subsets evaluated on the pre-grant pool snapshot. non-trivial = at least one request was decided while another allocation was live and at least one grant happened; distinct = distinct hash of (descriptor, operations, answers, granted indices). Narrowings: (1) the min-group clause for an entry is skipped when the coupling weights touching it sum to more than 1000 (a group costs 1024 in the optimisation, the documentation only promises a 'preference'); (2) for strict policies on a coupled descriptor the refusal/grant is compared with the documented 'optimal configuration wrt. coupling weights' only for integer amounts and light weights, otherwise only exclusivity/conservation/admission agreement are checked; (3) how the indices are distributed inside the chosen groups (compact 'evenly', tight 'pack the first group'), and which of several equally small group sets is taken, is not checked; (4) a refusal of a request with a strict entry that is explained only by a non-strict compact/tight entry missing its idle-worker minimum is reported under its own signature (the documentation does not say the strict yardstick spreads).";
+const RULE_C16: &str = "one run = seeded worker descriptor (cpus + 0-2 further resources; list / range / groups of 1-4 groups x 1-4 indices, uneven sizes, 1 run in 8 with up to 8 indices per group; sum resources with fractional sizes; optional coupling weights between groups, light 32-256 or heavy >1024) + seeded history of 5-40 operations grant(request) / release(live allocation) / probe(request) (+ optional final drain), requests of 1-3 entries over every policy (compact, tight, scatter, compact!, tight!, all), amounts on the grid {0.25,0.5,0.75,1,1.25,..} plus odd fractions (0.0001, 0.3333, 0.9999) up to slightly more than the resource. At every probe/grant the answer of the real allocator is compared with a brute-force reference over group subsets evaluated on the pre-grant pool snapshot. non-trivial = at least one request was decided while another allocation was live and at least one grant happened; distinct = distinct hash of (descriptor, operations, answers, granted indices). Narrowings: (1) the min-group clause for an entry is skipped when the coupling weights touching it sum to more than 1000 (a group costs 1024 in the optimisation, the documentation only promises a 'preference'); (2) for strict policies on a coupled descriptor the refusal/grant is compared with the documented 'optimal configuration wrt. coupling weights' only for integer amounts and light weights, otherwise only exclusivity/conservation/admission agreement are checked; (3) which of several equally small group sets is taken (tie-breaking) is not checked, and inside the chosen groups only the documented shape: tight leaves at most one used group with completely free indices ('packs as much as possible to the first group, then to the second'), compact's per-group numbers of whole indices differ by at most one unless the smaller group is exhausted ('taken evenly'); (4) a refusal of a request with a strict entry that is explained only by a non-strict compact/tight entry missing its idle-worker minimum is reported under its own signature (the documentation does not say the strict yardstick spreads).";
 
 const RULE_C04: &str = "one run = seeded worker descriptor (list / range with offset / groups up to 4x4 (1 run in 8 up to 8 indices per group) / sum with fractional size, optional coupling) + seeded history of 5-40 grant/release/probe operations (+ optional final drain) on the real allocator, requests of 1-3 entries, every policy, integer and fractional amounts, `all`. After every operation the pool snapshot is compared with the set of live allocations kept by the harness: per allocation exactly the requested amount (whole pool for all), whole indices + at most one fractional index holding the fractional part and listed last, indices and group labels of the descriptor; per index sum of held fractions <= 1; sum resources never overcommitted; per index and per pool free + held == total; concise admission mirror == pools; a refusal leaves the state alone; 1 grant in 5 is released at once and the snapshot compared with the one before the grant; whenever the last allocation is released the snapshot equals the initial one. non-trivial = at least one request was decided while another allocation was live and at least one grant happened; distinct = distinct hash of (descriptor, operations, answers, granted indices).";
 
@@ -574,7 +708,7 @@ pub fn replay(path: &Path, verbose: bool) -> i32 {
             return 2;
         }
     };
-    let r = run_ops(&file.descriptor, &file.ops, verbose, false);
+    let r = run_guarded(Job::Ops { desc: file.descriptor.clone(), ops: file.ops.clone(), verbose }, RUN_TIMEOUT);
     let mut hit: Option<&Finding> = None;
     let mut harness = false;
     for f in &r.findings {
